@@ -789,9 +789,15 @@ class Checker:
 			for index, (left, right) in enumerate(zip(want['layout'], got['layout'])):
 				if index >= len(copied) or not copied[index] or 'sort_key' not in left:
 					continue
+				if left.get('name') != right.get('name') or not isinstance(right.get('sort_key'), str):
+					# not the same member (e.g. the unexpanded named inline of the recorded late-template finding sits at this
+					# position): the ordinary comparison reports it, it says nothing about how sort keys are treated
+					continue
 				kind = 'fill' if 'array fill' == left.get('disposition') else 'literal' if not isinstance(left.get('size'), str) else 'sibling-sized'
 				key = right.get('sort_key')
-				treatment = 'kept' if key == left['sort_key'] else 'prefixed' if isinstance(key, str) and key.endswith('_' + left['sort_key']) else 'other'
+				if key != left['sort_key'] and not key.endswith('_' + left['sort_key']):
+					continue  # neither kept nor prefixed: an unlisted difference, reported by the ordinary comparison
+				treatment = 'kept' if key == left['sort_key'] else 'prefixed'
 				treatments.setdefault(treatment, {}).setdefault(kind, f'{entry["name"]}.{left["name"]}: {key!r}')
 				self.ctx.count(f'sort-key-of-copy:{kind}:{treatment}')
 		if 1 < len(treatments):
